@@ -39,6 +39,7 @@ KIND_NAMES = {
     702: 'C07/open_path: FileStorage.Open path vs Paths.open_path',
     703: 'C07/tar: torrent.readData vs Paths.tar_target',
     704: 'C07/strfuncs: cleanName, TrimSpace, filepath.Clean, path.Ext vs Paths',
+    602: 'C06/nesting: metainfo.New / NewInfo on documents with lists or dictionaries nested 1 .. 4,000,000 deep under an unknown key of the torrent file or of the info dictionary vs Meta.run_nesting (a crash of the process is the observation no model output matches)',
     601: 'C06/accept: metainfo.NewInfo vs Meta.accept',
     201: 'C02/new_pieces: metainfo.NewInfo+piece.NewPieces vs Geometry.new_pieces',
     202: 'C02/calc_blocks: piece.calculateBlocks vs Geometry.calc_blocks',
@@ -147,7 +148,7 @@ PROPS = {
         'assumptions': ['data directory is absolute and contains no symlinks planted by a third party'],
     },
     'C06': {
-        'kinds': {601: {'quick': 4000, 'thorough': 100000}},
+        'kinds': {601: {'quick': 4000, 'thorough': 100000}, 602: {'quick': 400, 'thorough': 6000}},
         'trusted': ['zeebo/bencode decodes the generated dictionaries into the struct fields the model starts from'],
         'assumptions': ['file lengths and the single length are int64 values; len(pieces)/20 < 2^31'],
     },
